@@ -146,6 +146,12 @@ inline bool excluded(const char* key) {
 //! shared slot and _exit()s the worker.
 [[noreturn]] void fatal(const char* label, const std::string& msg);
 
+//! end the current case from any thread without unwinding: the case is counted
+//! as inconclusive (abandon_case) or as passed (finish_case_early). The worker
+//! process exits and the driver starts a fresh one at the next case.
+[[noreturn]] void abandon_case(const char* why);
+[[noreturn]] void finish_case_early();
+
 #define PBT_CHECK(cond, lab, msgexpr)                     \
     do {                                                  \
         if (!(cond)) {                                    \
